@@ -79,6 +79,7 @@ void do_plan(int tier)
   else
     plan.init_threads = nth;
   sim_set_cores(2 + (int)sim_plan(5));
+  sim_set_tso(sim_plan(4) == 0);
   plan.ncalls = 1 + (int)sim_plan(C01_MAXCALLS);
   long long total = 0;
   for (int i = 0; i < plan.ncalls; i++) {
